@@ -20,4 +20,9 @@ open RdfModel RdfModel.C17
 #print axioms RdfModel.C17.not_dataset_flatten_export_all
 #print axioms RdfModel.C17.list_statement_flatten
 #print axioms RdfModel.C17.list_statement_nil
+#print axioms RdfModel.C17.export_terminates_repaired
+#print axioms RdfModel.C17.flatten_export_repaired
+#print axioms RdfModel.C17.dataset_flatten_export_repaired
+#print axioms RdfModel.C17.cross_graph_split_repaired
+#print axioms RdfModel.C17.not_dataset_flatten_export_all_repaired
 #print axioms RdfModel.C17.gen_desc_facts
